@@ -69,6 +69,8 @@ pub enum Sched {
     Rand(usize, u64),
     /// every m-th call fails with Interrupted before anything is transferred (writer side)
     Interrupt(usize),
+    /// source side: whole reads, except that no read crosses one of these absolute offsets
+    StopAt(Vec<u64>),
 }
 
 impl Sched {
@@ -77,7 +79,7 @@ impl Sched {
             return Ok(0);
         }
         let n = match self {
-            Sched::All => asked,
+            Sched::All | Sched::StopAt(_) => asked,
             Sched::Max(n) => asked.min((*n).max(1)),
             Sched::Cycle(n) => asked.min(1 + (call as usize % (*n).max(1))),
             Sched::Rand(n, seed) => {
@@ -152,10 +154,17 @@ impl Read for ThrottledSrc<'_> {
             return Ok(0);
         }
         let want = buf.len().min(avail);
-        let n = match self.sched.take(self.calls, want) {
+        let mut n = match self.sched.take(self.calls, want) {
             Ok(n) => n,
             Err(_) => want,
         };
+        if let Sched::StopAt(offs) = &self.sched {
+            for &o in offs {
+                if self.pos < o && self.pos + n as u64 > o {
+                    n = (o - self.pos) as usize;
+                }
+            }
+        }
         let p = self.pos as usize;
         buf[..n].copy_from_slice(&self.data[p..p + n]);
         self.pos += n as u64;
